@@ -1004,6 +1004,10 @@ class Extractor:
                 edits.append(Edit(toks[bo].end, toks[bo].end, let_inj + bs, ('inj', 'loop-body-start', '', 'proof')))
             be = ''.join('\n proof {\n%s\n }\n' % t for s in specs for t, _ in s.body_end)
             if be:
+                # a loop body may end in a unit-valued tail expression without `;` (`v.push(x)`): terminate it before the proof block
+                if toks[bc - 1].text not in (';', '}', '{'):
+                    edits.append(Edit(toks[bc - 1].end, toks[bc - 1].end, ';', ('gen', 'R13')))
+                    self.log_rule('R13', relfile, toks[bc - 1].line, 'tail statement of a loop body terminated by `;` before an injected proof block in ' + path)
                 edits.append(Edit(toks[bc].start, toks[bc].start, be, ('inj', 'loop-body-end', '', 'proof')))
         # proof injections
         body_src_lo, body_src_hi = toks[it.body_open].end, toks[it.body_close].start
